@@ -229,6 +229,42 @@ func runC08(ctx *Ctx, idx int) {
 				}
 			}
 		}
+		// the same long keys out of order: however long, a list that is not
+		// strictly ascending is rejected with the out-of-order error
+		if len(keys) >= 2 {
+			for t := 0; t < 4; t++ {
+				o := opts[(j+t*5)%16]
+				bad := append([]string{}, keys...)
+				kind := "swap"
+				switch t {
+				case 0:
+					bad[0], bad[1] = bad[1], bad[0]
+				case 1:
+					bad[len(bad)-1], bad[len(bad)-2] = bad[len(bad)-2], bad[len(bad)-1]
+				case 2:
+					kind = "duplicate"
+					bad = append(bad[:1], bad[0:]...)
+				case 3:
+					kind = "prefix-after"
+					bad = append(bad, bad[len(bad)-1][:len(bad[len(bad)-1])/2])
+				}
+				bv := genVals(r, vals.Kind, len(bad), 0)
+				st, err, pv, stack := buildTrie(bv.Encoder(), bad, bv.Slice(), o.Opt())
+				ex := map[string]interface{}{"run_half_bytes": L, "placement": c08PlacementNames[placement], "injection": kind, "max_key_len": maxLen}
+				ctx.Count("sweep:invalid_builds", 1)
+				if pv != nil {
+					ex["panic"], ex["stack"] = fmt.Sprint(pv), stack
+					c08Viol(ctx, "invalid-panic", o, bad, ex)
+				} else if err == nil {
+					c08Viol(ctx, "invalid-accepted", o, bad, ex)
+				} else if errors.Cause(err) != trie.ErrKeyOutOfOrder {
+					ex["error"] = truncate(err.Error(), 200)
+					c08Viol(ctx, "wrong-error", o, bad, ex)
+				} else if st != nil {
+					c08Viol(ctx, "error-with-trie", o, bad, ex)
+				}
+			}
+		}
 		if ctx.WantSample() && L > 300 && L < 70000 && placement == 1 {
 			ctx.Sample(map[string]interface{}{"kind": "run-sweep", "run_half_bytes": L, "placement": "below-17bit", "n_keys": len(keys), "max_key_len": maxLen})
 		}
@@ -389,7 +425,7 @@ func runC08(ctx *Ctx, idx int) {
 func init() {
 	register(&CheckDef{
 		ID: "C08", Level: "exploration", MemoryIsViolation: true, HangIsViolation: true, HangSeconds: 180,
-		Rule:     "two case kinds: (a) a generated valid key list (must be accepted) with order violations injected at every position of short lists / seeded positions of long ones (duplicate, swap, key followed by its own prefix, move-to-front, reverse, two swaps; signed-vs-unsigned byte traps) - each must be rejected with ErrKeyOutOfOrder and a nil trie; (b) run-length sweep: key sets whose single-branch run is exactly L half-bytes (L dense around powers of two and 65535/65536, up to 70000; thorough to 262145) at the root, below a 17-bit node, below a 257-bit node, chained, leading into a 257-bit node (at the root and below another 257-bit node), all 16 option sets - either an error with a nil trie or a trie (fresh and loaded) that finds every key it was built from; lists within the documented 16 KiB key length must be accepted; non-trivial = list with at least one effective violation, or one (L, placement); distinct by hash",
+		Rule:     "two case kinds: (a) a generated valid key list (must be accepted) with order violations injected at every position of short lists / seeded positions of long ones (duplicate, swap, key followed by its own prefix, move-to-front, reverse, two swaps; signed-vs-unsigned byte traps) - each must be rejected with ErrKeyOutOfOrder and a nil trie; (b) run-length sweep: key sets whose single-branch run is exactly L half-bytes (L dense around powers of two and 65535/65536, up to 70000; thorough to 262145) at the root, below a 17-bit node, below a 257-bit node, chained, leading into a 257-bit node (at the root and below another 257-bit node), all 16 option sets - either an error with a nil trie or a trie (fresh and loaded) that finds every key it was built from; lists within the documented 16 KiB key length must be accepted; the same long keys swapped, duplicated or followed by a prefix must be rejected with ErrKeyOutOfOrder whatever their length; non-trivial = list with at least one effective violation, or one (L, placement); distinct by hash",
 		NumCases: c08NumCases,
 		Run:      runC08,
 		MinNontrivial: func(tier string) int {
@@ -399,7 +435,7 @@ func init() {
 			return 1000
 		},
 		Gates: shapeGates("invalid:duplicate", "invalid:swap", "invalid:prefix-after", "invalid:move-to-front", "invalid:reverse", "family:signed-trap",
-			"invalid:rejected_with_ErrKeyOutOfOrder", "valid:accepted", "sweep:accepted", "sweep:rejected", "sweep:accepted_beyond_documented_length", "sweep:accepted_run_ge_65536", "sweep:accepted_run_ge_256"),
+			"invalid:rejected_with_ErrKeyOutOfOrder", "valid:accepted", "sweep:accepted", "sweep:rejected", "sweep:accepted_beyond_documented_length", "sweep:accepted_run_ge_65536", "sweep:accepted_run_ge_256", "sweep:invalid_builds"),
 		Assumptions: []string{"the documented key-length limit is 16 KiB; beyond it either outcome (error, or a working trie) is accepted", "reference model as in C01"},
 	})
 }
